@@ -72,3 +72,12 @@ Definition parse_level (m_stringToLevel : list (bytes * Z)) (lvl : bytes) (tr_ :
     end.
 Definition translated_parse_level := true.
 
+(* Level.UnmarshalText  (returns (err, *level, trace)) *)
+Definition unmarshal_text (m_stringToLevel : list (bytes * Z)) (level : Z) (text : bytes) (tr_ : list lvl_event) : option unit * Z * list lvl_event :=
+  let '(l, err, level, tr_) := (let '(l_, e_, t_) := parse_level m_stringToLevel text tr_ in (l_, e_, level, t_)) in
+  if (negb (is_nil err))
+  then (err, level, tr_)
+  else let level := l in
+  (None, level, tr_).
+Definition translated_unmarshal_text := true.
+
